@@ -67,7 +67,7 @@ impl Adapter for RawAdapter {
 #[no_mangle]
 pub extern "C" fn microscpi_probe(input: *const u8, len: usize) -> usize {
     let data = unsafe { core::slice::from_raw_parts(input, len) };
-    let mut iface = na::I::new();
+    let mut iface = na::I::<4>::new();
     let mut out: heapless::Vec<u8, 256> = heapless::Vec::new();
     let rest = block_on(iface.run(data, &mut out)).len();
     let mut adapter = RawAdapter {
